@@ -13,6 +13,7 @@ import z3
 from .types import str_distinct_axioms
 
 Z3_TIMEOUT_MS = int(os.environ.get("PYVC_Z3_TIMEOUT_MS", "20000"))
+EMATCH_TIMEOUT_MS = int(os.environ.get("PYVC_EMATCH_TIMEOUT_MS", "8000"))
 FALLBACK_TIMEOUT_S = int(os.environ.get("PYVC_FALLBACK_TIMEOUT_S", "60"))
 
 
@@ -27,12 +28,16 @@ def to_smt2(axioms, pc, goal) -> str:
 
 
 def _work(job):
-    idx, smt2, timeout_ms, want_model = job
+    idx, smt2, timeout_ms, want_model = job[:4]
+    ematch_only = len(job) > 4 and job[4]
     t0 = time.time()
     try:
         s = z3.Solver()
         s.set("timeout", timeout_ms)
         s.set("random_seed", 0)
+        if ematch_only:
+            s.set("mbqi", False)
+            s.set("auto_config", False)
         s.from_string(smt2)
         r = s.check()
         model = None
@@ -140,8 +145,12 @@ def discharge(engine, obligations, procs=None, want_models=True, log=None):
         ob.smt2 = to_smt2(axioms, ob.pc, ob.goal)
         jobs.append((i, ob.smt2, Z3_TIMEOUT_MS, want_models))
         pr = prune(ob.pc, ob.goal, cache)
+        # phase 0 portfolio (only `unsat` is used): E-matching only (no MBQI) on the full and on the pruned hypotheses
+        pre_jobs.append((i, ob.smt2, EMATCH_TIMEOUT_MS, False, True))
         if pr is not None:
-            pre_jobs.append((i, to_smt2(axioms, pr, ob.goal), Z3_TIMEOUT_MS, False))
+            psmt = to_smt2(axioms, pr, ob.goal)
+            pre_jobs.append((i, psmt, EMATCH_TIMEOUT_MS, False, True))
+            pre_jobs.append((i, psmt, Z3_TIMEOUT_MS, False, False))
     if not jobs:
         return
     ctx = mp.get_context("fork")
@@ -150,9 +159,11 @@ def discharge(engine, obligations, procs=None, want_models=True, log=None):
         done = set()
         for idx, r, t, model, why in pool.imap_unordered(_work, pre_jobs, chunksize=1):
             ob = obligations[idx]
+            if idx in done:
+                continue
             ob.time += t
             if r == "unsat":
-                ob.status, ob.backend = "proved", "z3-5.1 (pruned hypotheses)"
+                ob.status, ob.backend = "proved", "z3-5.1 (e-matching / pruned hypotheses)"
                 done.add(idx)
         jobs = [j for j in jobs if j[0] not in done]
         for idx, r, t, model, why in pool.imap_unordered(_work, jobs, chunksize=1):
